@@ -1,6 +1,9 @@
 -- line-protocol handler of property C18 (security estimate and acceptance policy)
 -- op lines (after the property id), mirrored by harness/src/bin/c18.rs:
 --   opts q b g ext ff fr                         ProofOptions::new             -> ok | panic
+--   optsb q b g ext ff fr                        ProofOptions::read_from of six bytes   -> ok | err
+--   ctx field log2len b                          Context::new / Context::read_from size limits -> ok | refused
+--   plevel CFG modhex cr                         both security levels of the honest proof of CFG
 --   bits modhex                                  Context::num_modulus_bits     -> n | panic
 --   conj b g ext log2len modhex hname cr         security_level(true), q = 1..255 -> run-length coded levels (p = panic)
 --   prov b g ext log2len modhex hname cr q1 q2   security_level(false), q = q1..q2
@@ -99,6 +102,28 @@ def handle : List String → String
       | some e => if (Options.new q b g e ff fr).isOk then "ok" else "panic"
       | none => "bad-op"
     | _ => "bad-op"
+  | "optsb" :: rest =>
+    match natList rest with
+    | some [q, b, g, e, ff, fr] =>
+      if q > 255 ∨ b > 255 ∨ g > 255 ∨ e > 255 ∨ ff > 255 ∨ fr > 255 then "bad-op" else
+      match Ext.ofNat? e with
+      | some e => if (Options.new q b g e ff fr).isOk then "ok" else "err"
+      | none => "err"
+    | _ => "bad-op"
+  | ["ctx", field, l2, b] =>
+    match natList [l2, b] with
+    | some [l2, b] =>
+      if l2 < 3 ∨ l2 > 63 ∨ ¬ (b ∈ [2, 4, 8, 16, 32, 64, 128]) ∨ ¬ (field ∈ ["f64", "f62", "f128"]) then "bad-op"
+      else if contextAccepted ⟨1, b, 0, .none, 2, 0⟩ (2 ^ l2) then "ok" else "refused"
+    | _ => "bad-op"
+  | ["plevel", cfg, modhex, cr] =>
+    match (cfg.splitOn "/").drop 2 |> natList, unhex modhex, cr.toNat? with
+    | some [q, b, g, e, ff, fr, l2], some bytes, some cr =>
+      match mkOptions [q, b, g, e, ff, fr] with
+      | some o =>
+        s!"{resShort (securityLevel o bytes (2 ^ l2) cr true)} {resShort (securityLevel o bytes (2 ^ l2) cr false)}"
+      | none => "bad-op"
+    | _, _, _ => "bad-op"
   | ["bits", modhex] =>
     match unhex modhex with
     | some bytes => if bytes.isEmpty ∨ bytes.length > 255 then "bad-op" else resStr (numModulusBits bytes)
